@@ -1115,7 +1115,7 @@ def plan(tier, seed):
     return {
         "nshards": 16,
         "params": {
-            "soft_s": 150,
+            "soft_s": 240,
             "n_iso": 320,
             "n_shared": 120,
             "n_api": 24,
@@ -1188,12 +1188,15 @@ def shard(ctx, stop_on=None):
             else:
                 same = _same(target)
                 test = lambda sc: bool(same(run_script(mon_shared, ctx.scratch, sc)[0]))  # noqa: E731
+                saved, saved_nq = Counter(mon_shared.counts), mon_shared.nq  # re-runs are not coverage
                 if test(script):
                     sc = ddmin(script, test)
-                    mm2, _, _ = run_script(mon_shared, ctx.scratch, sc)
-                    m2 = same(mm2)[0]
-                    case = {"workload": "api", "script": sc, "target": list(target)}
-                    sig = {"monitor": "eqv-model", "kind": m2["kind"], "query": m2["query"], "feature": api_feature(m2)}
+                    mm2 = same(run_script(mon_shared, ctx.scratch, sc)[0])
+                    if mm2:
+                        m2 = mm2[0]
+                        case = {"workload": "api", "script": sc, "target": list(target)}
+                        sig = {"monitor": "eqv-model", "kind": m2["kind"], "query": m2["query"], "feature": api_feature(m2)}
+                mon_shared.counts, mon_shared.nq = saved, saved_nq
             if case is None or not _verify_fresh_process(case, target):
                 ctx.stat("witness_needs_whole_shard")
                 case = dict(shard_case, target=list(target))
